@@ -16,6 +16,8 @@ import LemoProofs.Lemmas.RlpBytes
 import LemoProofs.Lemmas.RlpSplit
 import LemoModel.RlpSchema
 import LemoProofs.Lemmas.RlpSchemaLemmas
+import LemoModel.Base26
+import LemoProofs.Lemmas.Base26Lemmas
 namespace LemoProofs.C14
 open LemoModel.Rlp LemoModel.RlpSchema LemoProofs.RlpBytes LemoProofs.RlpSplit LemoProofs.RlpSchemaLemmas
 
@@ -655,6 +657,78 @@ theorem root_reencode_refuted_explicit (E : List UInt8) (hE : E.length = 32) :
   intro h
   rw [← h] at hE
   simp at hE
+
+/-! ### address text form: "Lemo" + base26(address ++ xor check byte) -/
+
+section AddressText
+open LemoModel.Base26 LemoProofs.Base26Lemmas
+
+/-- **address_text_roundtrip**: every 20-byte account address decodes back from its own text form
+    (zero address and addresses with leading zero bytes included; decode target is a fresh address). -/
+theorem address_text_roundtrip (a : List UInt8) (ha : a.length = 20) :
+    addressDecodeChars (addressChars a) = .ok a := by
+  unfold addressDecodeChars addressChars
+  simp only [List.map_append, encode_upper]
+  have hl : List.map Char.toUpper logo = logoUpper := by decide
+  rw [hl, List.take_left' (by decide), List.drop_left' (by decide)]
+  rw [if_neg (by simp), Base26Lemmas.decode_encode, stripZ_concat]
+  by_cases hz : stripZ a = []
+  · have hz' := stripZ_nil_imp a hz
+    rw [hz, hz'.2]
+    have : stripZ [0] = [] := by decide
+    simp only [List.isEmpty_nil, if_true, this, List.getLast?_nil]
+    rw [ha] at hz'
+    rw [← hz'.1]
+  · have hne : (stripZ a).isEmpty = false := by
+      cases hs : stripZ a with
+      | nil => exact absurd hs hz
+      | cons x t => rfl
+    rw [hne]
+    simp only [Bool.false_eq_true, if_false, List.getLast?_concat, List.dropLast_concat]
+    rw [checkSum_stripZ, if_neg (by simp)]
+    unfold setBytes
+    have hle := stripZ_length_le a
+    simp only
+    rw [if_neg (by omega)]
+    have := replicate_stripZ a
+    rw [ha] at this
+    rw [this]
+
+/-- decoding is case-insensitive: only the upper-cased text matters -/
+theorem address_decode_case_insensitive (s₁ s₂ : List Char)
+    (h : s₁.map Char.toUpper = s₂.map Char.toUpper) : addressDecodeChars s₁ = addressDecodeChars s₂ := by
+  unfold addressDecodeChars
+  simp only [h]
+
+theorem digitsLE_length_le (k n : Nat) (h : n < 26 ^ k) : (digitsLE n).length ≤ k := by
+  induction k generalizing n with
+  | zero =>
+    have : n = 0 := by simpa using h
+    subst this; rw [digitsLE_zero]; simp
+  | succ k ih =>
+    by_cases h0 : n = 0
+    · subst h0; rw [digitsLE_zero]; simp
+    · rw [digitsLE_pos h0]
+      have : n / 26 < 26 ^ k := by
+        rw [Nat.pow_succ] at h
+        exact Nat.div_lt_of_lt_mul (by rw [Nat.mul_comm]; exact h)
+      have := ih (n / 26) this
+      simp; omega
+
+/-- the text form of an address always has 4 + 36 characters (256^21 < 26^36) -/
+theorem address_text_length (a : List UInt8) (ha : a.length = 20) : (addressChars a).length = 40 := by
+  unfold addressChars
+  rw [List.length_append, encode_eq, List.length_append, List.length_replicate, List.length_reverse]
+  have h1 := fromBE_lt (a ++ [checkSum a])
+  rw [List.length_append, ha] at h1
+  simp only [List.length_cons, List.length_nil] at h1
+  have hpow : (256 : Nat) ^ (20 + (0 + 1)) < 26 ^ 36 := by decide
+  have h2 : fromBE (a ++ [checkSum a]) < 26 ^ 36 := Nat.lt_trans h1 hpow
+  have := digitsLE_length_le 36 _ h2
+  have hl : logo.length = 4 := rfl
+  omega
+
+end AddressText
 
 /-! ### the decoder really rejects the non-canonical forms (concrete witnesses, tests not theorems) -/
 
